@@ -76,9 +76,9 @@ func TestVF_C09(t *testing.T) {
 }
 
 func vfc09Tune(rng *rand.Rand, st *BucketStore) string {
-	st.enabledLazyExpandedPostings = rng.Intn(3) != 0
-	st.seriesMatchRatio = []float64{0.5, 0.9, 0.99}[rng.Intn(3)]
-	st.postingGroupMaxKeySeriesRatio = []float64{0, 0.05, 2}[rng.Intn(3)]
+	st.enabledLazyExpandedPostings = rng.Intn(4) != 0
+	st.seriesMatchRatio = []float64{0.5, 0.99, 0.999}[rng.Intn(3)]
+	st.postingGroupMaxKeySeriesRatio = []float64{0, 0.02, 2}[rng.Intn(3)]
 	st.seriesBatchSize = []int{1, 2, 10000}[rng.Intn(3)]
 	return fmt.Sprintf("lazy=%v ratio=%v keys=%v batch=%d", st.enabledLazyExpandedPostings, st.seriesMatchRatio, st.postingGroupMaxKeySeriesRatio, st.seriesBatchSize)
 }
@@ -86,7 +86,12 @@ func vfc09Tune(rng *rand.Rand, st *BucketStore) string {
 func vfc09RunFixture(t *testing.T, r *vfkit.Run, c int, rng *rand.Rand, nReq int, dir string) {
 	defer func() { _ = os.RemoveAll(dir) }()
 	fx := vfc07NewFixture(t, rng, dir, vfc07Opts{maxBlocks: 3, maxSeries: 100, slots: 36, hist: false})
-	cfg := vfc07StoreCfg{cache: []string{"none", "large"}[rng.Intn(2)], estSeries: []uint64{16, 48, 200, 0}[rng.Intn(4)], sampling: []int{1, 32}[rng.Intn(2)], hints: rng.Intn(2) == 0}
+	cfg := vfc07StoreCfg{cache: []string{"none", "large"}[rng.Intn(2)], estSeries: []uint64{8, 16, 48, 0}[rng.Intn(4)], sampling: []int{1, 32}[rng.Intn(2)], hints: rng.Intn(2) == 0}
+	if c%2 == 0 {
+		// every second fixture is set up so that lazy posting expansion can actually trigger on the limited
+		// calls: no expanded-postings cache (the unlimited call would fill it) and a small series size estimate
+		cfg.cache, cfg.estSeries = "none", 8
+	}
 	st := vfc07NewBucketStore(t, fx, cfg)
 	defer func() { _ = st.Close() }()
 	r.Sample(map[string]any{"case": c, "blocks": vfc07DescribeFixture(fx), "store": cfg.String()})
@@ -97,7 +102,12 @@ func vfc09RunFixture(t *testing.T, r *vfkit.Run, c int, rng *rand.Rand, nReq int
 	defer setLimits(0, 0)
 
 	for q := 0; q < nReq; q++ {
-		ms := vfc07GenMatchers(rng, fx.u, 0.08)
+		var ms []vfc07M
+		if rng.Intn(2) == 0 {
+			ms = vfc07GenMatchersMulti(rng, fx.u, 0.05)
+		} else {
+			ms = vfc07GenMatchers(rng, fx.u, 0.08)
+		}
 		mint, maxt := fx.vfc07Range(rng)
 		skip := rng.Intn(5) == 0
 		req := &storepb.SeriesRequest{MinTime: mint, MaxTime: maxt, Matchers: vfc07Proto(ms), SkipChunks: skip}
